@@ -12,8 +12,8 @@ use crate::rpc_call;
 use crate::transfer::connection::ClientSession;
 use crate::transfer::messages::{
     CancelJobResponse, CancelRequest, CloseJobRequest, CloseJobResponse, ForgetJobRequest,
-    FromClientMessage, IdSelector, JobDetail, JobDetailRequest, JobInfoRequest, TaskIdSelector,
-    TaskSelector, TaskStatusSelector, ToClientMessage,
+    FromClientMessage, IdSelector, JobDetail, JobDetailRequest, JobInfoRequest,
+    MAX_TASKS_NOT_FOUND, TaskIdSelector, TaskSelector, TaskStatusSelector, ToClientMessage,
 };
 
 #[derive(Parser)]
@@ -250,6 +250,9 @@ pub async fn output_job_cat(
                 let task_paths = resolve_task_paths(&job, &response.server_uid);
                 for task_id in &job.tasks_not_found {
                     log::warn!("Task {task_id} of job {job_id} not found");
+                }
+                if job.tasks_not_found.len() >= MAX_TASKS_NOT_FOUND {
+                    log::warn!("Other tasks of job {job_id} that were not found are not listed");
                 }
 
                 if job.tasks.is_empty() {
